@@ -1265,6 +1265,23 @@ theorem index_function_eval (T : FunTab K) (sig : List (List String))
   unfold tensorFunction at h' ⊢
   exact getItem_optMap _ _ v ix h'
 
+/-- the value of the whole array is made of the values of the components' own functions (what the
+driver's `c11.eval` computes component by component): component `i` of an accepted call of a
+rank-1 array is the accepted call of the `i`-th expression -/
+theorem tensorFunction_component (T : FunTab K) (sig : List (List String))
+    (consts : List (String × Val K)) (repl : List (String × String)) (l : List Expr)
+    (args : List (Val K)) (vs : List K)
+    (h : tensorFunction T sig consts repl (.vec l) args = some (.vec vs)) (i : Nat) (e : Expr)
+    (he : l[i]? = some e) : exprFunction T sig consts repl e args = vs[i]? := by
+  unfold tensorFunction at h
+  have hm := (Ten.optMap_eq_some_iff _ _ _).mp h
+  simp only [Ten.map, Ten.vec.injEq] at hm
+  have hi := congrArg (fun l => l[i]?) hm
+  simp only [List.getElem?_map, he, Option.map_some] at hi
+  cases hv : vs[i]? with
+  | none => rw [hv] at hi; simp at hi
+  | some v => rw [hv] at hi; simpa using hi
+
 /-- **chain_function_eval**: the same for successive indexing, `expr[index1][index2]...(*args)` (in
 particular `expr[i][j]`, which `index_index` identifies with `expr[i, j]`) -/
 theorem chain_function_eval (T : FunTab K) (sig : List (List String))
